@@ -4,12 +4,7 @@ From V Require Import Model.Base Model.ConnLTS Proofs.ConnBase.
 Import ListNotations.
 Open Scope N_scope.
 
-Definition wire_calls (l : list wrec) : list (nat * bytes) :=
-  flat_map (fun w => match w with WCall c f => [(c, f)] | WNack _ => [] end) l.
 Definition wire_callers (s : state) : list nat := map fst (wire_calls (wire s)).
-
-Lemma wire_calls_app a b : wire_calls (a ++ b) = wire_calls a ++ wire_calls b.
-Proof. apply flat_map_app. Qed.
 
 Definition live (s : state) (c : nat) : Prop := c_pc (callers s c) <> PNone.
 
